@@ -551,6 +551,8 @@ func runMapProgram(e *mapEnv, nOps, mode, valProf, opProf int) {
 			}
 			// C09: one live map, everything handed back has been disposed of: exactly its slabs remain
 			e.health()
+			// C18: values whose large-value slab is absent are reported, not dereferenced (dangling.go)
+			e.danglingProbe()
 		}
 	}
 	e.st.Ops += nOps
